@@ -322,7 +322,8 @@ Definition dpg_final (st : mparser) (res : list rg_badd) : Prop :=
   m_header (mp_msg st) = fold_left (addH td) fs hdr0 /\
   m_body (mp_msg st) = body_of fs res /\
   m_trailer (mp_msg st) = fold_left (addT td) fs trl0 /\
-  m_raw (mp_msg st) = Some (ser fs).
+  m_raw (mp_msg st) = Some (ser fs) /\
+  S (mp_field_index st) = length fs.
 
 Definition sim_top (rest : list (Z * bytes)) : Prop :=
   forall done st xl prev fuel adds res,
@@ -408,7 +409,8 @@ Proof.
   - rewrite (Hlast eq_refl) in *. change (TAG_CHECK_SUM =? RG_CHECKSUM) with true in Hscan.
     rewrite Z.eqb_refl. inversion Hscan; subst res.
     eexists. split; [reflexivity|]. rewrite app_nil_r in Hsplit. unfold dpg_final.
-    rewrite Hfields, Hh, Hb, Ht, Hmraw, <- Hsplit. repeat split; reflexivity.
+    rewrite Hfields, Hh, Hb, Ht, Hmraw, Hfi, <- Hsplit. repeat split; try reflexivity.
+    rewrite Hsplit, app_length. cbn [length]. lia.
   - pose proof (Hnl ltac:(discriminate)) as Hn10. unfold TAG_CHECK_SUM, RG_CHECKSUM in *.
     replace (fst f =? 10) with false in * by lia.
     set (st3 := if negb (mp_found_body st2) then mp_set_msg st2 (msg_set_body_bytes (mp_msg st2) (mp_raw_bytes st2)) else st2).
@@ -624,6 +626,14 @@ End Sim.
 (* ------------------------------------------------------------------------------------------------ *)
 (* doParsing on a framed message, with the Body described by the field-level scan                      *)
 
+(* the message doParsing hands back (the slots that were not used are dropped) *)
+Definition dpg_msg (td : option transport_dict) (fs : list (Z * bytes)) (m : message) (res : list rg_badd) : Prop :=
+  m_fields m = map init_of fs /\
+  m_header m = fold_left (addH td) fs hdr0 /\
+  m_body m = body_of fs res /\
+  m_trailer m = fold_left (addT td) fs trl0 /\
+  m_raw m = Some (ser fs).
+
 Lemma dp_rel_to_dpg : forall td mt n fs v8 v9 rest st,
   dp_rel td n fs [(8, v8); (9, v9); (35, mt)] rest st ->
   dpg_rel td mt n fs [(8, v8); (9, v9); (35, mt)] rest st [].
@@ -653,7 +663,7 @@ Lemma do_parsing_framed_groups_gen : forall fs td d mt defs v8 v9 mid res,
   c11_framed fs = true -> fs = (8, v8) :: (9, v9) :: (35, mt) :: mid -> ~ In TAG_MSG_TYPE (map fst mid) ->
   ad_defs_as d mt defs -> dict_body_only td defs ->
   rg_scan (td_xh td) (td_xt td) (Some (map gdef_rg defs)) RgTop 3%nat mid [] = Ok res ->
-  exists m, dpg_final td (count_byte SOH (ser fs)) fs (mk_mp m [] 0 0 [] false false) res /\
+  exists m, dpg_msg td fs m res /\
     do_parsing (ser fs) td (Some d) =
       match fm_get_int (m_header m) TAG_BODY_LENGTH with
       | Ok bl => if c11_body_length fs =? bl then Ok m else Err E_BODY_LENGTH
@@ -705,23 +715,25 @@ Proof.
   { cbn [xl_ok]. apply Z.le_refl. }
   { exact Hscan. }
   rewrite E4. cbn [bind].
-  destruct F4 as (G1 & G2 & G3 & G4 & G5).
+  destruct F4 as (G1 & G2 & G3 & G4 & G5 & G6).
   match goal with |- context [fm_get_int (m_header (msg_set_body_bytes ?x ?y)) 9] => set (MM := msg_set_body_bytes x y) end.
-  assert (HM : m_fields MM = m_fields (mp_msg st4) /\ m_header MM = m_header (mp_msg st4) /\ m_body MM = m_body (mp_msg st4) /\
-               m_trailer MM = m_trailer (mp_msg st4) /\ m_raw MM = m_raw (mp_msg st4)).
-  { unfold MM. destruct (mp_found_trailer st4 && negb (mp_found_body st4)); repeat split; reflexivity. }
+  assert (HM : m_fields MM = firstn (S (mp_field_index st4)) (m_fields (mp_msg st4)) /\ m_header MM = m_header (mp_msg st4) /\
+               m_body MM = m_body (mp_msg st4) /\ m_trailer MM = m_trailer (mp_msg st4) /\ m_raw MM = m_raw (mp_msg st4)).
+  { unfold MM. cbn [mp_set_msg mp_found_trailer mp_found_body].
+    destruct (mp_found_trailer st4 && negb (mp_found_body st4)); repeat split; reflexivity. }
   destruct HM as (M1 & M2 & M3 & M4 & M5).
+  rewrite G6, G1, firstn_init_exact in M1.
   exists MM. split.
-  - unfold dpg_final. cbn [mp_msg]. rewrite M1, M2, M3, M4, M5. repeat split; assumption.
+  - unfold dpg_msg. rewrite M1, M2, M3, M4, M5. repeat split; assumption.
   - destruct (fm_get_int (m_header MM) 9); try reflexivity.
-    rewrite M1, G1, dp_fields_length_app, dp_fields_length_init, dp_fields_length_zero, Z.add_0_r. reflexivity.
+    rewrite M1, dp_fields_length_init. reflexivity.
 Qed.
 
 Lemma do_parsing_framed_groups : forall fs td d mt defs v8 v9 mid res,
   c11_framed fs = true -> fs = (8, v8) :: (9, v9) :: (35, mt) :: mid -> ~ In TAG_MSG_TYPE (map fst mid) ->
   ad_find mt d = Some defs -> dict_body_only td defs ->
   rg_scan (td_xh td) (td_xt td) (Some (map gdef_rg defs)) RgTop 3%nat mid [] = Ok res ->
-  exists m, dpg_final td (count_byte SOH (ser fs)) fs (mk_mp m [] 0 0 [] false false) res /\
+  exists m, dpg_msg td fs m res /\
     do_parsing (ser fs) td (Some d) =
       match fm_get_int (m_header m) TAG_BODY_LENGTH with
       | Ok bl => if c11_body_length fs =? bl then Ok m else Err E_BODY_LENGTH
@@ -1033,7 +1045,7 @@ Theorem parse_fidelity_groups : forall td d mt defs v8 v9 v10 items fs,
   c11g_ok td defs (items ++ [CFld (10, v10)]) ->
   exists m, do_parsing (ser fs) td (Some d) = Ok m /\
     m_raw m = Some (ser fs) /\
-    m_fields m = map init_of fs ++ repeat tv_zero (count_byte SOH (ser fs) - length fs) /\
+    m_fields m = map init_of fs /\
     (forall t v, c11_last_value ((8, v8) :: (9, v9) :: (35, mt) :: c11g_flds (items ++ [CFld (10, v10)])) t = Some v ->
        fm_get_bytes (parsed_section td t m) t = Ok v) /\
     (forall before t T g after, items = before ++ CGrp t T g :: after ->
@@ -1059,7 +1071,7 @@ Proof.
     cbn in Hc. destruct Hc as [Hc|[]]. discriminate. }
   pose proof (c11g_scan td defs v10 items 3%nat [] Hok Hno10) as Hscan. fold ITS in Hscan. cbn [app] in Hscan.
   destruct (do_parsing_framed_groups fs td d mt defs v8 v9 _ _ Hfr Efs0 Hn35' Hfind Hdict Hscan) as (m & Hfin & Hdo).
-  destruct Hfin as (F1 & F2 & F3 & F4 & F5). cbn [mp_msg] in *.
+  destruct Hfin as (F1 & F2 & F3 & F4 & F5).
   set (h3 := [(8, v8); (9, v9); (35, mt)]).
   assert (Efs1 : fs = h3 ++ c11g_flat ITS) by exact Efs0.
   (* header and trailer lookups *)
@@ -1114,9 +1126,9 @@ Proof.
     assert (Eoff : off = length (h3 ++ c11g_flat before)) by (unfold off; rewrite app_length; reflexivity).
     assert (Hne : c11g_flat (after ++ [CFld (10, v10)]) <> []).
     { rewrite c11g_flat_app. cbn [c11g_flat flat_map c11g_item_wire app]. intros E. apply app_eq_nil in E. destruct E as [_ E]. discriminate. }
-    rewrite F1. generalize (repeat tv_zero (count_byte SOH (ser fs) - length fs)). intros zs.
-    rewrite Efs2, Eoff.
-    exact (group_window (h3 ++ c11g_flat before) T t g _ zs Hwf Hfit Hne Hpost).
+    rewrite F1, Efs2, Eoff.
+    pose proof (group_window (h3 ++ c11g_flat before) T t g _ [] Hwf Hfit Hne Hpost) as Hgw. cbv zeta in Hgw.
+    rewrite app_nil_r in Hgw. exact Hgw.
 Qed.
 
 (* a checkable form of dict_body_only *)
@@ -1207,7 +1219,7 @@ Theorem parse_refines_scan : forall fs td d mt defs v8 v9 mid res,
   rg_scan (td_xh td) (td_xt td) (Some (map gdef_rg defs)) RgTop 3%nat mid [] = Ok res ->
   exists m, do_parsing (ser fs) td (Some d) = Ok m /\
     m_raw m = Some (ser fs) /\
-    m_fields m = map init_of fs ++ repeat tv_zero (count_byte SOH (ser fs) - length fs) /\
+    m_fields m = map init_of fs /\
     m_header m = fold_left (addH td) fs hdr0 /\
     m_trailer m = fold_left (addT td) fs trl0 /\
     m_body m = body_of fs res.
@@ -1215,7 +1227,7 @@ Proof.
   intros fs td d mt defs v8 v9 mid0 res H Efs0 Hn35 Hfind Hdict Hscan.
   unfold c11_wire_ok in H. apply andb_true_iff in H as [Hfr H9].
   destruct (do_parsing_framed_groups fs td d mt defs v8 v9 _ _ Hfr Efs0 Hn35 Hfind Hdict Hscan) as (m & Hfin & Hdo).
-  destruct Hfin as (F1 & F2 & F3 & F4 & F5). cbn [mp_msg] in *.
+  destruct Hfin as (F1 & F2 & F3 & F4 & F5).
   destruct (c11_framed_shape fs Hfr) as (v8' & v9' & v35 & mid & v10' & Efs & _ & _ & Hmid).
   assert (Ev9' : v9' = v9) by (rewrite Efs0 in Efs; inversion Efs; reflexivity). subst v9'.
   rewrite Efs in H9. apply andb_true_iff in H9 as [Hv9 Hbound]. rewrite <- Efs in Hv9, Hbound.
